@@ -190,7 +190,7 @@ bool SmodelsInput::readSymbols() {
 	StringSpan n0, n1;
 	SymTab::Heuristic heu;
 	std::vector<SymTab::Heuristic> doms;
-	for (Lit_t atom; (atom = (Lit_t)matchPos()) != 0;) {
+	for (Lit_t atom; (atom = (Lit_t)matchPos(atomMax, "atom expected")) != 0;) {
 		name.clear();
 		stream()->get();
 		for (char c; (c = stream()->get()) != '\n';) {
@@ -230,7 +230,7 @@ bool SmodelsInput::readSymbols() {
 
 bool SmodelsInput::readCompute(const char* comp, bool val) {
 	require(match(comp) && stream()->get() == '\n', "compute statement expected");
-	for (Lit_t x; (x = (Lit_t)matchPos()) != 0;) {
+	for (Lit_t x; (x = (Lit_t)matchPos(atomMax, "atom expected")) != 0;) {
 		if (val) { x = neg(x); }
 		out_.rule(Head_t::Disjunctive, toSpan<Atom_t>(), toSpan(&x, 1));
 	}
@@ -239,7 +239,7 @@ bool SmodelsInput::readCompute(const char* comp, bool val) {
 
 bool SmodelsInput::readExtra() {
 	if (match("E")) {
-		for (Atom_t atom; (atom = matchPos()) != 0;) {
+		for (Atom_t atom; (atom = matchPos(atomMax, "atom expected")) != 0;) {
 			out_.external(atom, Value_t::Free);
 		}
 	}
